@@ -4,5 +4,5 @@ CONSTANTS
   LEN = 4
   DEVS = {}
 SPECIFICATION Spec
-INVARIANTS Inv_Arity Inv_OkTyped Inv_Contract
+INVARIANTS Inv_Arity Inv_OkTyped Inv_Contract Inv_L1Functions
 CHECK_DEADLOCK FALSE
